@@ -11,7 +11,7 @@ EXPLANATION = ('Sibling cross-check of the three sites in logos_codegen::generat
 
 def run(ctx, rep):
     crate = ctx.mir('ws-default')['logos_codegen']
-    cg.rule_sites(rep, crate, want=('C10',))
+    cg.rule_sites(rep, crate, want=('C10', 'C09'))      # ignore(case) leaves the priority of a token alone: 2 x byte length of the literal, not of its escaped form
     cg.rule_compile_lit(rep, crate)
     cg.rule_literal_escape(rep, crate)
     # a literal character counts once whether it is a Literal or (under ignore(case)) a class: ignore(case) leaves the default priority alone
